@@ -244,6 +244,185 @@ theorem keys_distinct (c i c' i' : Bytes) (hc : c.length < 256 ^ 4) (hi : i.leng
   injection h3 with h3
   exact ⟨h3, h1⟩
 
+/-! ### every executed message was consumed by its destination (history level) -/
+
+/-- `initialize_auth` never touches the approvals -/
+theorem initSets_approvals (now : Nat) (sets : List WSigners) (st st' : State) (evs : List Event)
+    (h : initSets H now sets st = .ok (st', evs)) : st'.approvals = st.approvals := by
+  induction sets generalizing st evs with
+  | nil =>
+    unfold initSets at h
+    injection h with h
+    injection h with h1 h2
+    subst h1
+    rfl
+  | cons ws rest ih =>
+    unfold initSets at h
+    cases hi : rotateSignersInner H st ws false now with
+    | error e => rw [hi] at h; cases h
+    | ok p =>
+      obtain ⟨st1, ev⟩ := p
+      rw [hi] at h
+      dsimp only at h
+      cases hr : initSets H now rest st1 with
+      | error e => rw [hr] at h; cases h
+      | ok q =>
+        obtain ⟨a, b⟩ := q
+        rw [hr] at h
+        dsimp only at h
+        injection h with h
+        injection h with h1 h2
+        subst h1
+        rw [ih st1 b hr]
+        exact rotateInner_approvals H _ _ _ _ _ _ hi
+
+/-- a freshly constructed gateway holds no approvals at all -/
+theorem constructed_no_approvals (owner operator : Addr) (domain : Bytes) (minDelay retention : Nat) (sets : List WSigners)
+    (now : Nat) (w0 : World) (hc : constructed H owner operator domain minDelay retention sets now = some w0) (c i : Bytes) :
+    w0.st.approvals c i = .notApproved := by
+  unfold constructed at hc
+  cases hcon : construct H owner operator domain minDelay retention sets now with
+  | error e => rw [hcon] at hc; cases hc
+  | ok r =>
+    obtain ⟨st, evs⟩ := r
+    rw [hcon] at hc
+    dsimp only at hc
+    injection hc with hc
+    subst hc
+    unfold construct at hcon
+    by_cases he : sets.isEmpty = true
+    · rw [if_pos he] at hcon; cases hcon
+    · rw [if_neg he] at hcon
+      show st.approvals c i = .notApproved
+      rw [initSets_approvals H now sets _ _ evs hcon]
+      rfl
+
+/-- **one step**: a key that is `executed` after an operation was `executed` before, or the operation was a
+    `validate_message` for that key that returned true, authorised by the caller, against the stored approval of exactly
+    the presented message -/
+theorem step_executed_new (w : World) (op : Op σ) (c i : Bytes)
+    (h1 : (step H V w op).1.st.approvals c i = .executed) :
+    w.st.approvals c i = .executed ∨
+    (∃ auths caller sa ph evs, op = .validateMessage auths caller c i sa ph ∧
+        (step H V w op).2 = .okBool true evs ∧ caller ∈ auths ∧
+        w.st.approvals c i = .approved (messageHash H ⟨c, i, sa, caller, ph⟩)) := by
+  cases op with
+  | approve ms proof =>
+    left
+    simp only [step] at h1
+    split at h1
+    · rename_i st' evs h
+      have := approveMessages_ok H V _ _ _ _ _ h
+      have h2 := approveLoop_approvals H ms w.st c i
+      rw [this] at h2
+      simp only at h1 h2
+      rcases h2 with h2 | ⟨_, h', h3⟩
+      · rw [← h2]; exact h1
+      · rw [h3] at h1; cases h1
+    · exact h1
+  | rotate auths ws proof bypass =>
+    left
+    simp only [step] at h1
+    split at h1
+    · rename_i st' evs h
+      have := rotateSigners_approvals H V _ _ _ _ _ _ _ _ h
+      simp only [this] at h1
+      exact h1
+    · exact h1
+  | validateMessage auths caller chain id src ph =>
+    cases hv : validateMessage H w.st auths caller chain id src ph with
+    | error e =>
+      left
+      have : (step H V w (.validateMessage auths caller chain id src ph)).1 = w := by simp only [step, hv]
+      rw [this] at h1
+      exact h1
+    | ok r =>
+      obtain ⟨st', b, evs⟩ := r
+      have hs1 : (step H V w (.validateMessage auths caller chain id src ph)).1.st = st' := by simp only [step, hv]
+      have hs2 : (step H V w (.validateMessage auths caller chain id src ph)).2 = .okBool b evs := by
+        simp only [step, hv]
+      rw [hs1] at h1
+      obtain ⟨hauth, ⟨hb, ha, hs, _⟩ | ⟨_, _, hs, _⟩⟩ := validateMessage_ok H _ _ _ _ _ _ _ _ _ _ hv
+      · subst hs; subst hb
+        by_cases hci : c = chain ∧ i = id
+        · obtain ⟨rfl, rfl⟩ := hci
+          exact Or.inr ⟨auths, caller, src, ph, evs, rfl, hs2, hauth, ha⟩
+        · simp only [hci, if_false] at h1
+          exact Or.inl h1
+      · subst hs
+        exact Or.inl h1
+  | callContract auths caller chain dest payload =>
+    left
+    simp only [step, callContract] at h1
+    split at h1
+    · rename_i hr
+      split at hr
+      · cases hr
+      · cases hr; exact h1
+    · exact h1
+  | transferOwnership auths new =>
+    left
+    simp only [step, transferOwnership] at h1
+    split at h1
+    · rename_i hr
+      split at hr
+      · cases hr
+      · cases hr; exact h1
+    · exact h1
+  | transferOperatorship auths new =>
+    left
+    simp only [step, transferOperatorship] at h1
+    split at h1
+    · rename_i hr
+      split at hr
+      · cases hr
+      · cases hr; exact h1
+    · exact h1
+  | setTime now => exact Or.inl h1
+
+theorem trace_cons (w : World) (op : Op σ) (ops : List (Op σ)) :
+    trace H V w (op :: ops) = (w, op, (step H V w op).2) :: trace H V (step H V w op).1 ops := rfl
+
+/-- the history-level statement from any world -/
+theorem run_executed_new (ops : List (Op σ)) : ∀ (w : World) (c i : Bytes),
+    (run H V w ops).1.st.approvals c i = .executed →
+    w.st.approvals c i = .executed ∨
+    ∃ wa auths caller sa ph evs,
+      (wa, Op.validateMessage auths caller c i sa ph, Obs.okBool true evs) ∈ trace H V w ops ∧ caller ∈ auths ∧
+      wa.st.approvals c i = .approved (messageHash H ⟨c, i, sa, caller, ph⟩) := by
+  induction ops with
+  | nil => intro w c i hfin; exact Or.inl hfin
+  | cons op ops ih =>
+    intro w c i hfin
+    rw [run_cons] at hfin
+    rcases ih (step H V w op).1 c i hfin with h1 | ⟨wa, auths, caller, sa, ph, evs, hmem, hr⟩
+    · rcases step_executed_new H V w op c i h1 with h2 | ⟨auths, caller, sa, ph, evs, rfl, hobs, hr⟩
+      · exact Or.inl h2
+      · refine Or.inr ⟨w, auths, caller, sa, ph, evs, ?_, hr⟩
+        rw [trace_cons, hobs]
+        exact List.mem_cons_self
+    · refine Or.inr ⟨wa, auths, caller, sa, ph, evs, ?_, hr⟩
+      rw [trace_cons]
+      exact List.mem_cons_of_mem _ hmem
+
+/-- **every message on record as executed was consumed by its own destination**: start from any successful construction and
+    run ANY history; if afterwards (chain, id) is marked executed, then somewhere in that history a `validate_message` call
+    returned true for it — made with the authorisation of the very contract it named as caller, at a moment when the gateway
+    held an approval of exactly the message (chain, id, source address, that caller, payload hash) it presented. Nobody else's
+    call, and no call presenting other content, can have marked it. -/
+theorem executed_was_consumed (owner operator : Addr) (domain : Bytes) (minDelay retention : Nat) (sets : List WSigners)
+    (now : Nat) (w0 : World)
+    (hc : constructed H owner operator domain minDelay retention sets now = some w0)
+    (ops : List (Op σ)) (c i : Bytes)
+    (hfin : (run H V w0 ops).1.st.approvals c i = .executed) :
+    ∃ wa auths caller sa ph evs,
+      (wa, Op.validateMessage auths caller c i sa ph, Obs.okBool true evs) ∈ trace H V w0 ops ∧ caller ∈ auths ∧
+      wa.st.approvals c i = .approved (messageHash H ⟨c, i, sa, caller, ph⟩) := by
+  have h0 := constructed_no_approvals H owner operator domain minDelay retention sets now w0 hc c i
+  rcases run_executed_new H V ops w0 c i hfin with h1 | h1
+  · rw [h0] at h1; cases h1
+  · exact h1
+
 /-! ### non-vacuity (the model RUN in the kernel on a concrete history, toy hash) -/
 section NonVacuity
 open Cgp.Toy
